@@ -2,11 +2,14 @@
 import importlib
 import pmlib
 
-LEAN_MODULES = ["PomerolModel.Properties.C17"]
+LEAN_MODULES = ["PomerolModel.Properties.C17", "PomerolModel.Spec.Chi4Refine", "PomerolModel.Spec.GFRefine", "PomerolModel.Spec.AveragesSpec"]
 GENERATED = ["coreflags", "mc4"]
 THEOREMS = ["Pomerol.Properties.C17." + t for t in (
     "advance_in_bounds", "merge_walk_in_bounds", "merge_walk_common", "source_guards_first", "unguarded_chase_overruns",
-    "source_memory_safety_flags", "matsubara_storage_in_bounds", "operator_comparison_in_bounds", "index_table_no_null_slot")]
+    "source_memory_safety_flags", "matsubara_storage_in_bounds", "operator_comparison_in_bounds", "index_table_no_null_slot")] + [
+    # memory safety of the modelled loops proved next to their functional correctness (these files import C17)
+    "Pomerol.Spec.Chi4Refine.compute_in_bounds", "Pomerol.Spec.GFRefine.gfpart_contributions_source",
+    "Pomerol.Spec.AveragesSpec.occupancy_is_trace"]
 RULE = ("a case = any workflow generated for the other properties (lattices, indices, symmetry analysis incl. ignored "
         "symmetries and one-dimensional blocks, diagonalisation, density matrix, field operators, G, chi incl. the default "
         "compute() without frequency list, vertex and its storage, susceptibilities, averages, truncation, container "
